@@ -11,6 +11,8 @@
 //       7 REF<TS<Int>> boundary fed by the plain input (to-REF adapter outside, de-referencing consumer inside: the
 //         nested node's own input only ticks when the reference changes, so later input ticks reach the child only
 //         through the out-of-band "push" of graph.cpp nested_schedule_node_impl)
+//       8 sampler: reads the input PASSIVELY and wakes itself by symbolic periods (an outer tick wakes the nested node
+//         while nothing in the child is due, yet the child's pending wake-up must survive)
 //   symbolic : input script times (first offset >= 0, gaps >= 1 us) and values, the captured port's script,
 //              the internal timer's wake-up deltas (>= 1 us: consecutive smallest steps and gaps), start, window
 //   oracle   : output recorder stream (time, value) of every nested mode == the inlined mode's stream;
@@ -38,10 +40,10 @@
 #define DEPTH 2
 #endif
 #ifndef NDEF
-#define NDEF 8
+#define NDEF 9
 #endif
 #ifndef DEF_MASK
-#define DEF_MASK 0xff
+#define DEF_MASK 0x1ff
 #endif
 
 using namespace hk;
@@ -89,6 +91,21 @@ struct Timer {  // internal source: runs at start, then wakes itself NT times by
         k.set(i + 1);
     }
 };
+struct Sampler {  // passive reader of the input, driven only by its own schedule (period = symbolic timer deltas)
+    static constexpr auto name = "c09_sampler";
+    static constexpr bool schedule_on_start = true;
+    static void eval(In<"a", TS<Int>, InputActivity::Passive, InputValidity::Unchecked> a, NodeScheduler s, State<Int> k, DateTime now, Out<TS<Int>> out) {
+        ModeLog &L = g_m[g_mode];
+        Int i = k.get();
+        if (L.ntrun < NT + 2) L.trun[L.ntrun++] = now; else L.overflow = true;
+        out.set(100000000 * (i + 1) + (a.valid() ? a.value() : Int{-1}));
+        if (i < NT) {
+            s.schedule(TimeDelta{g_td[i]});
+            if (L.ntreq < NT + 2) L.treq[L.ntreq++] = now + TimeDelta{g_td[i]}; else L.overflow = true;
+        }
+        k.set(i + 1);
+    }
+};
 struct MapN {
     static constexpr auto name = "c09_map";
     static void eval(In<"a", TS<Int>> a, Out<TS<Int>> out) { out.set(2 * a.value() + 1); }
@@ -127,6 +144,7 @@ struct G4 { static constexpr auto name = "c09_g_capture";  static Port<TS<Int>> 
 struct G5 { static constexpr auto name = "c09_g_timeronly"; static Port<TS<Int>> compose(Wiring &w) { return wire<MapN>(w, wire<Timer>(w)); } };
 struct G6 { static constexpr auto name = "c09_g_probe";    static Port<TS<Int>> compose(Wiring &w, Port<TS<Int>> x) { return wire<Probe>(w, x); } };
 
+struct G8 { static constexpr auto name = "c09_g_sampler";  static Port<TS<Int>> compose(Wiring &w, Port<TS<Int>> x) { return wire<Sampler>(w, x); } };
 struct G7 { static constexpr auto name = "c09_g_refin";    static Port<TS<Int>> compose(Wiring &w, Port<REF<TS<Int>>> x) { return wire<MapN>(w, x); } };
 
 // ---- G7 (REF boundary) K levels deep: the innermost boundary is REF-typed, outer levels pass the plain port
@@ -187,6 +205,7 @@ template <int K> GraphBuilder build_def(int def) {
         case 4: return build_graph<Top1<G4, K, true>>();
         case 5: return build_graph<Top0<G5, K>>();
         case 6: return build_graph<Top1<G6, K, false>>();
+        case 8: return build_graph<Top1<G8, K, false>>();
         default: return build_graph<TopR<K>>();
     }
 }
@@ -217,7 +236,7 @@ extern "C" int harness_main() {
             g_V[sc][j] = verif_range(sc == 0 ? "xval" : "cval", -1000000, 1000000);
         }
     }
-    const bool uses_timer = def == 1 || def == 5;
+    const bool uses_timer = def == 1 || def == 5 || def == 8;
     for (int i = 0; i < NT; i++) g_td[i] = uses_timer ? verif_range("tdelta", 1, DMAX) : 1;
 
     for (g_mode = 0; g_mode < NMODE; g_mode++) {
@@ -262,9 +281,7 @@ extern "C" int harness_main() {
     if (finding_def) verif_reach("unchecked_consumer");  // before the assertion: a concretely failing assertion ends the path
     for (int m = 1; m < NMODE; m++) {
         if (finding_def) {
-            // fails on the unchanged tree (known finding N1); `tolerate`: see notes/C09.md - the failure is reported with
-            // tolerate = 0 and the path continues with tolerate = 1 (keeps bin/check's sampled-path differential meaningful)
-            verif_assert((ok_count[m] & ok_same[m]) | verif_sbool("tolerate"), "C09.unchecked_input_consumer_same_stream");
+            verif_assert(ok_count[m] & ok_same[m], "C09.unchecked_input_consumer_same_stream");  // known finding N1
         } else {
             verif_assert(ok_count[m], m == 1 ? "C09.depth1_same_number_of_output_ticks" : "C09.deeper_same_number_of_output_ticks");
             verif_assert(ok_same[m], m == 1 ? "C09.depth1_stream_equals_inlined" : "C09.deeper_stream_equals_inlined");
@@ -286,6 +303,14 @@ extern "C" int harness_main() {
         }
         if (idle_parent_wake) verif_reach("child_timer_fired_while_parent_idle");
         if (consecutive) verif_reach("child_timer_consecutive_steps");
+    }
+    if (def == 8) {
+        // an outer tick falls strictly between two evaluations of the sampler, the later one being a pending wake-up
+        bool pending = false;
+        for (int i = 1; i < I.ntrun; i++)
+            for (int j = 0; j < NX; j++)
+                if (I.trun[i - 1] < g_T[0][j] && g_T[0][j] < I.trun[i]) pending = true;
+        if (pending) verif_reach("outer_tick_while_child_wakeup_pending");
     }
     if (def == 3 && I.nout >= 1) verif_reach("pass_through_ticked");
     if (def == 4 && I.nout >= 1) verif_reach("captured_port_ticked");
